@@ -2594,8 +2594,10 @@ void Analyser::AnalyserImpl::analyseModel(const ModelPtr &model)
             if (owningModel(variable) != model) {
                 auto issue = Issue::IssueImpl::create();
 
+                auto component = owningComponent(variable);
+
                 issue->mPimpl->setDescription("Variable '" + variable->name()
-                                              + "' in component '" + owningComponent(variable)->name()
+                                              + ((component != nullptr) ? "' in component '" + component->name() : "")
                                               + "' is marked as an external variable, but it belongs to a different model and will therefore be ignored.");
                 issue->mPimpl->setLevel(Issue::Level::MESSAGE);
                 issue->mPimpl->setReferenceRule(Issue::ReferenceRule::ANALYSER_EXTERNAL_VARIABLE_DIFFERENT_MODEL);
